@@ -12,7 +12,10 @@
 //	a shutdown + restart of the server on the same state file (holds of a previous run),
 //	runs the real admin tool as a child process where the script says so: `ldlm-lock list`,
 //	`ldlm-lock unlock <name> <key>`, `ldlm-lock unlock <name>` (socket path by -s, by --socket= or by the environment),
-//	and records exit status, stdout and stderr,
+//	and records exit status, stdout and stderr; names that kong would read as flags are passed after `--`
+//	(`ldlm-lock unlock -- <name> [<key>]`) where the script says so,
+//	asks the server's IPC receiver directly (net/rpc over the same unix socket, IPC.ListLocks) right before and right
+//	after every run of the tool: the server's own table of holds before / after the command,
 //	copies the state file where the script says so and decodes the copy with the tree's own store
 //	(server/session/store),
 //	collects the server's own log lines about lease timers that fired.
@@ -33,6 +36,7 @@ import (
 	"fmt"
 	"io"
 	gonet "net"
+	"net/rpc"
 	"os"
 	"os/exec"
 	"os/signal"
@@ -77,6 +81,9 @@ type Step struct {
 	Ref     int      `json:"ref,omitempty"`     // sleep_since: index of the step whose acknowledgement is the origin
 	Count   int      `json:"count,omitempty"`   // await: number of returned calls to wait for
 	Role    string   `json:"role,omitempty"`    // for the oracle and the coverage only
+	Sep     bool     `json:"sep,omitempty"`     // cli_unlock: `unlock -- <name> [<key>]` (names that look like flags)
+	KeyPre  string   `json:"key_pre,omitempty"` // cli_unlock raw: text put in front of / behind the (resolved) key
+	KeyPost string   `json:"key_post,omitempty"`
 }
 
 type Scenario struct {
@@ -162,6 +169,14 @@ type CliObs struct {
 	Stderr   string   `json:"stderr"`
 	Name     string   `json:"name,omitempty"` // unlock: what was passed
 	Key      string   `json:"key,omitempty"`
+	Sep      bool     `json:"sep,omitempty"` // unlock: the positional arguments came after `--`
+}
+
+// IpcObs is the server's own listing, asked for by the driver over the IPC socket (not through the tool).
+type IpcObs struct {
+	Entries []string `json:"entries"`
+	Err     string   `json:"err,omitempty"`
+	AtUs    int64    `json:"at_us"`
 }
 
 type Obs struct {
@@ -173,6 +188,8 @@ type Obs struct {
 	Call    *CallObs    `json:"call,omitempty"`
 	Calls   []CallObs   `json:"calls,omitempty"`
 	Cli     *CliObs     `json:"cli,omitempty"`
+	IpcPre  *IpcObs     `json:"ipc_before,omitempty"` // cli_unlock / cli_list: IPC.ListLocks right before the tool ran
+	IpcPost *IpcObs     `json:"ipc_after,omitempty"`  // ... and right after it returned
 	File    *FileObs    `json:"file,omitempty"`
 	Waiters []WaiterObs `json:"waiters,omitempty"`
 	Stop    *ProcObs    `json:"stop,omitempty"`
@@ -630,14 +647,23 @@ func jsonStr(s string) string {
 	return string(b)
 }
 
-// runCLI runs the admin tool. via: short = `-s SOCK <cmd...>`, long = `<cmd...> --socket=SOCK`, env = LDLM_IPC_SOCKET_FILE.
+// runCLI runs the admin tool. via: short = `-s SOCK <cmd...>`, long = `<cmd...> --socket=SOCK` (`--socket=SOCK <cmd...>` when the
+// words contain `--`), env = LDLM_IPC_SOCKET_FILE.
 func (r *run) runCLI(via string, words ...string) *CliObs {
 	o := &CliObs{}
 	var args []string
 	envv := cleanEnv(r.dir)
 	switch via {
 	case "long":
-		args = append(append(args, words...), "--socket="+r.spec.sock)
+		sep := false
+		for _, w := range words {
+			sep = sep || w == "--"
+		}
+		if sep { // everything behind `--` is positional: the flag goes in front
+			args = append([]string{"--socket=" + r.spec.sock}, words...)
+		} else {
+			args = append(append(args, words...), "--socket="+r.spec.sock)
+		}
 	case "env":
 		args = append(args, words...)
 		envv = append(envv, co.ConfigEnvPrefix+"IPC_SOCKET_FILE="+r.spec.sock)
@@ -676,6 +702,52 @@ func (r *run) runCLI(via string, words ...string) *CliObs {
 		o.Exit = -1
 	}
 	o.Stdout, o.Stderr = tail(so.String(), 60000), tail(se.String(), 4000)
+	return o
+}
+
+// ipcList asks the server's IPC receiver for its listing: one `{Name: .., Key: .., Size: ..}` string per hold. The
+// request and response types are spelled out here (gob matches them structurally with server/ipc's), so the driver
+// does not depend on the package's Go types.
+func (r *run) ipcList() *IpcObs {
+	o := &IpcObs{Entries: []string{}}
+	defer func() { o.AtUs = r.us() }()
+	type dialed struct {
+		c   *rpc.Client
+		err error
+	}
+	dch := make(chan dialed, 1)
+	go func() {
+		c, err := rpc.DialHTTP("unix", r.spec.sock)
+		dch <- dialed{c, err}
+	}()
+	var c *rpc.Client
+	select {
+	case d := <-dch:
+		if d.err != nil {
+			o.Err = "dial: " + d.err.Error()
+			return o
+		}
+		c = d.c
+	case <-time.After(3 * time.Second):
+		o.Err = "dial: no answer within 3s"
+		return o
+	}
+	defer c.Close()
+	var out []string
+	call := c.Go("IPC.ListLocks", struct{}{}, &out, make(chan *rpc.Call, 1))
+	select {
+	case <-call.Done:
+		if call.Error != nil {
+			o.Err = "IPC.ListLocks: " + call.Error.Error()
+			return o
+		}
+	case <-time.After(3 * time.Second):
+		o.Err = "IPC.ListLocks: no answer within 3s"
+		return o
+	}
+	if out != nil {
+		o.Entries = out
+	}
 	return o
 }
 
@@ -867,9 +939,11 @@ func (r *run) step(i int, st Step) (o Obs) {
 			o.Calls = append(o.Calls, c)
 		}
 	case "cli_list":
+		o.IpcPre = r.ipcList()
 		o.InvUs = r.us()
 		o.Cli = r.runCLI(st.Via, "list")
 		o.AckUs = r.us()
+		o.IpcPost = r.ipcList()
 	case "cli_unlock":
 		var name, key string
 		switch st.By {
@@ -893,15 +967,24 @@ func (r *run) step(i int, st Step) (o Obs) {
 				}
 				key = h.key
 			}
+			if key != "" {
+				key = st.KeyPre + key + st.KeyPost
+			}
 		}
-		words := []string{"unlock", name}
+		words := []string{"unlock"}
+		if st.Sep {
+			words = append(words, "--")
+		}
+		words = append(words, name)
 		if key != "" {
 			words = append(words, key)
 		}
+		o.IpcPre = r.ipcList()
 		o.InvUs = r.us()
 		o.Cli = r.runCLI(st.Via, words...)
 		o.AckUs = r.us()
-		o.Cli.Name, o.Cli.Key = name, key
+		o.IpcPost = r.ipcList()
+		o.Cli.Name, o.Cli.Key, o.Cli.Sep = name, key, st.Sep
 	case "read_state":
 		r.nSnap++
 		o.File = readState(r.spec.statePath, filepath.Join(r.dir, fmt.Sprintf("state.copy%d", r.nSnap)))
